@@ -32,6 +32,26 @@ CLAIMED = {
         'spelling function (harness/parsecheck.py spell) and the abstraction '
         'of code tokens to spec tokens (c01_random.abstract_tok).',
         'DESIGN.md 4/C01'),
+    'C06': (
+        'TLC model checking of Rects.tla (transcription of ranges.py against '
+        'cell-set definitions, all operand combinations of the bounded grid) + '
+        'replay of every case on formulas.ranges.Ranges and through formulas + '
+        'TLC trace validation (RectsTrace.tla) of random multi-area operations',
+        'TLC checks for every pair of rectangles of the 4x4 (quick) / 5x5 '
+        '(thorough) grid, every (pair, rectangle) and every pair/triple of the '
+        '3x3 grid that the loop-by-loop transcription of _intersect, _split, '
+        '__and__, __or__, __add__, __sub__, simplify/_merge yields exactly the '
+        'cells (and duplicates) the cell-set definitions give. Every case is '
+        'replayed on the real Ranges class: areas, duplicates, #NULL! for an '
+        'empty intersection, different-sheet errors, and the value arrays '
+        'position by position with content = coordinates; a sample is spelled '
+        'as =SUM(...) formulas. Random multi-area operands on two sheets are '
+        'run on the real class and each recorded result is validated by '
+        'RectsTrace.tla against both the ideal and the transcription.',
+        'Trusted: TLC; the cell-set definitions of Rects.tla; rectangle <-> '
+        'A1-name conversion in the harness. Whole-row/column operands are not '
+        'enumerated here (sampled in C04).',
+        'DESIGN.md 4/C06'),
     'C18': (
         'TLC model checking of ShuntingYard.tla/Grammar.tla (every token '
         'sequence ends acc or rej; acc only if the grammar accepts) and '
